@@ -8,7 +8,7 @@
               (computed on the list model: the view is skipn off of the buffer), "na" when the view is nil or shorter
    alloc cfg.. state frame
        model: "0" | "+" (allocation counter of Model/ParseAlloc.v zero / non-zero), spec "-" *)
-From PV Require Import Base.Text Base.Slice Model.Parse Model.ParseShow Model.ParseKnown Model.ParseAlloc Model.ParseAlias Model.ParseCalls.
+From PV Require Import Base.Text Base.Slice Model.Parse Model.ParseFixes Model.ParseShow Model.ParseKnown Model.ParseAlloc Model.ParseAlias Model.ParseCalls.
 Open Scope string_scope.
 Open Scope N_scope.
 
@@ -61,6 +61,30 @@ Definition show_allocs (r : res nat) : string :=
   | Fuel => "fuel"
   end.
 
+Definition ppa_cfg : cfg := mkCfg [0;85;85;85;85;85] [0;102;102;102;102;102] [192;168;0;0] 24 current_fixes.
+Fixpoint ppa_run (toks : list string) (acc : list string) (woken : bool) : option string :=
+  match toks with
+  | [] => Some (join " | " (rev ((if woken then "ping:ok" else "ping:timeout") :: acc)))
+  | t :: r =>
+      match t with
+      | String k (String ":"%char h) =>
+          match bytes_of_tok h with
+          | Some b =>
+              let s := of_bytes b in
+              let w := match parse ppa_cfg s with
+                       | Ok f => Ascii.eqb k "m"%char && match f_echo f with Some _ => true | None => false end
+                       | _ => false end in
+              let o := match parse ppa_cfg s with
+                       | Err e => show_errclass e
+                       | _ => show_allocs (parse_allocs ppa_cfg (fun _ => TrackedOnline) s)
+                       end in
+              ppa_run r (o :: acc) (woken || w)
+          | None => None
+          end
+      | _ => None
+      end
+  end.
+
 Definition dispatch (kind : string) (args : list string) : string :=
   if String.eqb kind "alias" then
     match args with
@@ -92,6 +116,19 @@ Definition dispatch (kind : string) (args : list string) : string :=
         match cfg_of_toks hm rm lan bits, hstate_of_tok st, bytes_of_tok fr with
         | Some c, Some st, Some b => out3 (show_allocs (parse_allocs c (fun _ => st) (of_bytes b))) "-" "-"
         | _, _, _ => BADARGS
+        end
+    | _ => BADARGS
+    end
+  else if String.eqb kind "ppa" then
+    (* ppa FAM MS tok...: heap allocations of every single Parse call while a ping is pending, every source tracked and
+       online: the counter of Model/ParseAlloc.v says 0 for every accepted frame, whatever the waiter table holds
+       (echoNotify: mutex, map lookup, close, delete - nothing that allocates); ping:ok iff a frame with the pending
+       identifier has f_echo *)
+    match args with
+    | _fam :: _ms :: toks =>
+        match ppa_run toks [] false with
+        | Some l => out3 l l "-"
+        | None => BADARGS
         end
     | _ => BADARGS
     end
